@@ -361,6 +361,7 @@ type payloadSpec struct {
 	token uint64
 	flags uint64
 	cap   *capnp.Client
+	twice bool // the capability is named by two entries of the capability table (pointers 0 and 1)
 }
 
 func (r *run) place(ps payloadSpec) func(capnp.Struct) error {
@@ -369,6 +370,12 @@ func (r *run) place(ps payloadSpec) func(capnp.Struct) error {
 		st.SetUint64(8, ps.flags)
 		if ps.cap != nil {
 			id := st.Message().AddCap(ps.cap.AddRef())
+			if ps.twice {
+				id2 := st.Message().AddCap(ps.cap.AddRef())
+				if err := st.SetPtr(1, capnp.NewInterface(st.Segment(), id2).ToPtr()); err != nil {
+					return err
+				}
+			}
 			return st.SetPtr(0, capnp.NewInterface(st.Segment(), id).ToPtr())
 		}
 		return nil
@@ -418,7 +425,11 @@ func (r *run) callerTask(id int, nops int) {
 			lc.ctx, lc.cancel = context.WithCancel(ctx)
 			r.locals[lc.token] = lc
 			ps := payloadSpec{token: lc.token}
-			cpc := s.Choice("caller-param-cap", 4)
+			// (values 4..7: as 0..3, and the capability appears twice in the payload - two descriptors, two
+			// references, given back together by a Return with releaseParamCaps)
+			cpc := s.Choice("caller-param-cap", 8)
+			ps.twice = cpc >= 4
+			cpc %= 4
 			if r.capsBias && cpc >= 2 {
 				cpc -= 2
 			}
